@@ -29,6 +29,12 @@ pub struct Meas {
 /// construction) at checkpoints ref, 2*ref, 4*ref, ... The harness allocates nothing in between.
 /// `fork_at`: clone the replica at that delivery; `drop_orig`: drop the original right after the fork.
 pub fn measure(spec: &Spec, vals: &[f64], fork_at: Option<usize>, drop_orig: bool) -> Result<Meas, &'static str> {
+    measure_ex(spec, vals, fork_at, drop_orig, 0)
+}
+
+/// `reclone_every` > 0: every that many deliveries the (first) replica is replaced by its own clone and
+/// the original dropped — a clone that carries more than its source would grow without bound.
+pub fn measure_ex(spec: &Spec, vals: &[f64], fork_at: Option<usize>, drop_orig: bool, reclone_every: usize) -> Result<Meas, &'static str> {
     let l0 = warm_len(spec);
     let reference = match fork_at {
         Some(f) => f + l0,
@@ -79,6 +85,18 @@ pub fn measure(spec: &Spec, vals: &[f64], fork_at: Option<usize>, drop_orig: boo
                 if try_drop(a.take().unwrap()).is_err() {
                     return Err("panic");
                 }
+            }
+        }
+        if reclone_every > 0 && n % reclone_every == 0 {
+            if let Some(v) = a.take() {
+                let c = match try_clone(&v) {
+                    Ok(c) => c,
+                    Err(_) => return Err("panic"),
+                };
+                if try_drop(v).is_err() {
+                    return Err("panic");
+                }
+                a = Some(c);
             }
         }
         if n == next_cp {
@@ -212,6 +230,8 @@ impl Prop for C18 {
         sc.feeds.push(Feed::Gen { seed: r.next_u64(), shape, len, scale, positive });
         sc.set_int("fork_at", if fork { l0 as i64 } else { -1 });
         sc.set_int("drop_orig", r.chance(0.5) as i64);
+        let reclone = sc.trees[0].cloneable() && r.chance(0.15);
+        sc.set_int("reclone_every", if reclone { *r.pick(&[1i64, 7, 100, 1000]) } else { 0 });
         sc
     }
 
@@ -229,7 +249,11 @@ impl Prop for C18 {
         let vals = sc.feeds[0].materialise();
         let fork_at = sc.int("fork_at").filter(|f| *f > 0 && spec.cloneable()).map(|f| f as usize);
         let drop_orig = sc.int("drop_orig").unwrap_or(0) != 0;
-        match measure(spec, &vals, fork_at, drop_orig) {
+        let reclone = sc.int("reclone_every").filter(|x| *x > 0 && spec.cloneable()).unwrap_or(0) as usize;
+        if reclone > 0 {
+            out.stats.hit("reach.replica_repeatedly_replaced_by_its_clone");
+        }
+        match measure_ex(spec, &vals, fork_at, drop_orig, reclone) {
             Err(why) => {
                 out.stats.hit(&format!("skip.{}", why));
             }
@@ -281,7 +305,7 @@ impl Prop for C18 {
     }
 
     fn rule(&self) -> String {
-        "Block 1: every wrapper alone under each of the 14 workload shapes (which branch pushes can depend on the data). Block 2: every ordered pair of wrappers as a two-level chain. Block 3: random trees (depth 1-3, combinators, stalls). 30% of runs clone the replica after the warm-up L0 = 8*(sum of window lengths)+256 deliveries and continue with the clone (dropping the original in half of them). Streams come from the seeded generator: quick 40k-400k deliveries, thorough 60k+, 5% 400k+, 0.2% 4,000,001. A counting #[global_allocator] keeps per-thread live bytes; the harness allocates nothing between construction and the last checkpoint. Oracle: at every checkpoint R, 2R, 4R, 8R, ... (R = L0, or fork point + L0) the live bytes stay below a bound that depends on the window lengths only (per node 1 KiB + eight 8-byte buffers at twice the next power of two above the window; about 5-10x the real footprint). A push-per-update leak of one f64 exceeds it within a few thousand deliveries. (A first version demanded 'no growth after L0'; that raised a false alarm on EFT, whose moving average is fed only when the window is not flat and therefore reaches its final capacity late. Removed.) distinct = distinct (topology, feed length, fork choice); non-trivial = at least three checkpoints (two doublings) were compared."
+        "Block 1: every wrapper alone under each of the 14 workload shapes (which branch pushes can depend on the data). Block 2: every ordered pair of wrappers as a two-level chain. Block 3: random trees (depth 1-3, combinators, stalls). 15% of runs replace the replica by its own clone every 1/7/100/1000 deliveries (dropping the original); 30% of runs clone the replica after the warm-up L0 = 8*(sum of window lengths)+256 deliveries and continue with the clone (dropping the original in half of them). Streams come from the seeded generator: quick 40k-400k deliveries, thorough 60k+, 5% 400k+, 0.2% 4,000,001. A counting #[global_allocator] keeps per-thread live bytes; the harness allocates nothing between construction and the last checkpoint. Oracle: at every checkpoint R, 2R, 4R, 8R, ... (R = L0, or fork point + L0) the live bytes stay below a bound that depends on the window lengths only (per node 1 KiB + eight 8-byte buffers at twice the next power of two above the window; about 5-10x the real footprint). A push-per-update leak of one f64 exceeds it within a few thousand deliveries. (A first version demanded 'no growth after L0'; that raised a false alarm on EFT, whose moving average is fed only when the window is not flat and therefore reaches its final capacity late. Removed.) distinct = distinct (topology, feed length, fork choice); non-trivial = at least three checkpoints (two doublings) were compared."
             .into()
     }
     fn assumptions(&self) -> Vec<String> {
@@ -292,7 +316,7 @@ impl Prop for C18 {
         ]
     }
     fn must_reach(&self, t: Tier) -> Vec<&'static str> {
-        let mut v = vec!["ev.fork", "ev.drop", "oracle.checkpoints", "reach.transient_scratch_inside_update"];
+        let mut v = vec!["ev.fork", "ev.drop", "oracle.checkpoints", "reach.transient_scratch_inside_update", "reach.replica_repeatedly_replaced_by_its_clone"];
         if t == Tier::Thorough {
             v.push("reach.run_4e6");
         }
